@@ -54,23 +54,58 @@ def allocate : List Str → List Str → Except Err (List Str)
     let rest ← allocate ls used'
     pure (n :: rest)
 
-/-! ### the wrapper's cache -/
+/-! ### the wrapper's cache and project name
+
+  Model of `PinchProblem.load` / `target` (`OpenPinch/classes/pinch_problem.py`, after the `fix:`
+  commits that clear the cached result and the project name on every load).  A problem is a number;
+  a project name is `none` for the default `'Untitled'` and `some k` for the stem of file `k`. -/
+
+/-- Where a problem is loaded from. -/
+inductive Src where
+  | model            -- a validated model in memory
+  | file (k : Nat)   -- a JSON file / workbook / CSV directory; its stem becomes the project name
+  | pair             -- a (streams.csv, utilities.csv) pair
+  deriving Repr, DecidableEq
+
+/-- What `target` reports: which problem, analysed under which project name. -/
+abbrev Res := Nat × Option Nat
 
 structure Wrapper where
   loaded : Option Nat := none
-  cached : Option Nat := none
+  name   : Option Nat := none
+  cached : Option Res := none
   deriving Repr, DecidableEq
 
 inductive WOp where
-  | load (i : Nat) | target
+  | load (i : Nat) (src : Src) | target
   deriving Repr
 
-/-- `load` replaces the problem and clears the cache; `target` fills and returns the cache. -/
-def wstep (w : Wrapper) : WOp → Wrapper × Option Nat
-  | .load i => ({ loaded := some i, cached := none }, none)
+/-- `load` clears cache and project name, then stores the problem (a path also sets the project
+    name); `target` fills and returns the cache (`none`: RuntimeError, nothing loaded). -/
+def wstep (w : Wrapper) : WOp → Wrapper × Option Res
+  | .load i src =>
+    let w0 : Wrapper := { loaded := w.loaded, name := none, cached := none }
+    match src with
+    | .model => ({ w0 with loaded := some i }, none)
+    | .pair => ({ w0 with loaded := some i }, none)
+    | .file k => ({ w0 with loaded := some i, name := some k }, none)
   | .target =>
     match w.cached with
     | some r => (w, some r)
-    | none => ({ w with cached := w.loaded }, w.loaded)
+    | none =>
+      match w.loaded with
+      | some i => ({ w with cached := some (i, w.name) }, some (i, w.name))
+      | none => (w, none)
+
+/-- The same machine as the code was before the project-name `fix:` commit: `load` kept the name of
+    a previously loaded file for file-less sources. -/
+def wstepLegacy (w : Wrapper) : WOp → Wrapper × Option Res
+  | .load i src =>
+    let w0 : Wrapper := { loaded := w.loaded, name := w.name, cached := none }
+    match src with
+    | .model => ({ w0 with loaded := some i }, none)
+    | .pair => ({ w0 with loaded := some i }, none)
+    | .file k => ({ w0 with loaded := some i, name := some k }, none)
+  | .target => wstep w .target
 
 end OP.Sheet
